@@ -114,4 +114,37 @@ PROPS = {
             "module targets are reported by glas as the empty range 0..0 of the module's file and accepted as such",
         ],
     },
+    "C05": {
+        "bin": "m_sema",
+        "build": BUILD_VH,
+        "level": "exploration",
+        "budget": {"quick": 20, "thorough": 600},
+        "timeout": {"quick": 1200, "thorough": 10800},
+        "death_is_violation": False,
+        "rule": ("workspaces of 1-4 modules from the scope-aware generator (names from pools of 4-7 spellings per namespace, so shadowing is the norm; imports qualified, aliased, unqualified, unqualified-aliased, "
+                 "type imports; all statement/expression/pattern forms); goto_definition is asked at the start and end offset of EVERY identifier the printer emitted and compared with the binding the generator "
+                 "recorded. A workspace is non-trivial if some module declares one spelling at least twice (shadowing); distinct by FNV-1a of its files; evaluations = goto queries."),
+        "assumptions": [
+            "soundness everywhere: an answer must be the recorded declaration (file + focus range as glas defines it per kind: name token; whole variant; whole `label: Type` field; `..name` spread; 0..0 for modules)",
+            "completeness on the supported core only (DESIGN §5 C05): uses inside unary operands, guards, `todo as`, qualified constants and module qualifiers in pattern/type position are soundness-only",
+            "fields common to all variants resolve to the first variant's field (glas's definition of common fields)",
+            "well-formed programs only: no unbound value names, no import cycles, no duplicate definitions in one namespace; programs may be ill-typed",
+        ],
+    },
+    "C06": {
+        "bin": "m_sema",
+        "build": BUILD_VH,
+        "level": "exploration",
+        "budget": {"quick": 20, "thorough": 600},
+        "timeout": {"quick": 1200, "thorough": 10800},
+        "death_is_violation": False,
+        "rule": ("workspaces = repository/corpus .gleam files, scope-aware generated workspaces, and generated workspaces put through damage (mutation, truncation, import rewiring). Census: goto at every IDENT/U_IDENT token. "
+                 "For every non-module target D: own(D) = first identifier token in D's focus range, S_D = {own(D)} + tokens spelled like it whose goto is D. Law: goto(own(D)) = D; references asked at every member of S_D "
+                 "equals S_D as a set, no duplicates; highlight_related equals S_D restricted to the file. Non-trivial = some S_D has >= 2 members; distinct by FNV-1a of the files; evaluations = goto + references queries."),
+        "assumptions": [
+            "pure law between two real APIs, no ground truth: a goto bug that is mirrored in references is C05's to find",
+            "occurrences reaching D through an alias spelling are neither required nor allowed in the set (as the statement says)",
+            "workspaces have a package (gleam.toml); the free-standing case is C17's",
+        ],
+    },
 }
